@@ -211,13 +211,14 @@ void sim_io_report(void)
 }
 
 /* ------------------------------------------------------------------ fault lookup */
-typedef struct { int kind; long arg; long ord; } hit_t;
+typedef struct { int kind; long arg; long ord; int from_rate; } hit_t;
 
 static int fault_check(int call, int cls, hit_t *hit)
 {
 	static const char *kn[] = { "", "short", "short1", "eintr", "err", "eof" };
 	long oc = ++counters[call][cls];
 	long oa = ++counters[call][CL_ANY];
+	hit->from_rate = 0;
 	for (int i = 0; i < nfaults; i++) {
 		fault_t *f = &faults[i];
 		if (f->call != call)
@@ -239,6 +240,7 @@ static int fault_check(int call, int cls, hit_t *hit)
 			hit->kind = r->kind;
 			hit->arg = 0;
 			hit->ord = oc;
+			hit->from_rate = 1;
 			return 1;
 		}
 	}
@@ -318,6 +320,8 @@ static ssize_t xfer_fault(int call, int fd, size_t *count, int is_read)
 			eintr_run[fd]++;
 		}
 		count_fired(call, FK_EINTR);
+		if (h.from_rate)
+			sim_trace("R %s %s %ld eintr 0", call_names[call], class_names[cls], h.ord);
 		errno = EINTR;
 		return -1;
 	case FK_ERR:
@@ -335,6 +339,8 @@ static ssize_t xfer_fault(int call, int fd, size_t *count, int is_read)
 		if (n > 0) {
 			*count = n;
 			count_fired(call, h.kind);
+			if (h.from_rate)
+				sim_trace("R %s %s %ld short %zu", call_names[call], class_names[cls], h.ord, n);
 		}
 		break;
 	}
